@@ -438,14 +438,20 @@ class TopCollector(ScoredCollector):
         self.limit = limit
         self.usequality = usequality
         self.total = 0
+        # Whether block quality optimizations were used for any segment (in
+        # which case documents were skipped and self.total is not the count)
+        self._used_block_quality = False
 
     def _use_block_quality(self):
-        return (self.usequality
-                and not self.top_searcher.weighting.use_final
-                and self.matcher.supports_block_quality())
+        use = (self.usequality
+               and not self.top_searcher.weighting.use_final
+               and self.matcher.supports_block_quality())
+        if use:
+            self._used_block_quality = True
+        return use
 
     def computes_count(self):
-        return not self._use_block_quality()
+        return not self._used_block_quality
 
     def all_ids(self):
         # Since this collector can skip blocks, it doesn't track the total
